@@ -256,6 +256,9 @@ def gen_program(rng, focus="c09", maxt=None, busy=False):
         counter[0] += 1
         tok = "%s%d" % (owner, counter[0])
         r = rng.random()
+        if busy and r < 0.5:
+            # tasks that are still running when a stalled thread resumes (their completion comes after its write)
+            return ["enq", tok, "sleep", rng.choice([15, 25, 40])]
         if r < 0.45:
             return ["enq", tok, "ret"]
         if r < 0.65:
@@ -331,6 +334,41 @@ def gen_program(rng, focus="c09", maxt=None, busy=False):
             if rng.random() < 0.25:
                 eops.append(["sleep", rng.choice([0, 1, 3])])
             eops.append(new_task("e%d_" % i, allow_gate=not busy))
+        prog["enqueuers"].append(eops)
+    return prog
+
+
+def gen_program_start_under_load(rng):
+    """start() (or a restart) while other threads keep submitting tasks that outlive the call, then - once the pool
+    has gone quiet and shrunk - one more task that the controller waits for."""
+    maxt = rng.choice([1, 2, 3])
+    mint = rng.choice([0, 0, rng.randint(0, maxt)])
+    prog = {"max": maxt, "min": mint, "timeout": rng.choice([0.005, 0.01]), "queue_size": 0,
+            "controller": [], "enqueuers": []}
+    ops = prog["controller"]
+    n = [0]
+
+    def task(owner, kind=None):
+        n[0] += 1
+        k = kind or rng.choice(["sleep", "sleep", "ret", "exc"])
+        return ["enq", "%s%d" % (owner, n[0]), k] + ([rng.choice([15, 30, 45])] if k == "sleep" else [])
+    if rng.random() < 0.5:
+        ops.append(["start"])
+        ops.append(task("c", "ret"))
+        ops.append(["stop"])
+    for _ in range(rng.randint(1, 3)):
+        ops.append(task("c", "ret"))
+    ops.append(["go", 0])
+    ops.append(["go", 1])
+    ops.append(["start"])
+    ops.append(["sleep", rng.choice([150, 250])])
+    last = task("c", "ret")
+    ops.append(last)
+    ops.append(["wait", last[1]])
+    for i in range(2):
+        eops = [["sleep", rng.choice([1, 3])]]
+        for _ in range(rng.randint(3, 7)):
+            eops.append(task("e%d_" % i))
         prog["enqueuers"].append(eops)
     return prog
 
@@ -751,6 +789,16 @@ def check_c09(events, prog):
     for seq, f in ix["barriers"]:
         if not f["opened"]:
             stuck.update(f["toks"])
+    frozen_program = any(k == "abandoned" and f.get("what") == "program" for _, k, _, f in events)
+    if frozen_program:
+        # the program froze (nothing moved for 1.5 s, all gates released) while the controller waits for a result:
+        # an accepted, obligatory task that has not started by now never will
+        must = set(must_run_tokens(events))
+        waited = [f["tok"] for _, k, _, f in events if k == "wait_call"]
+        answered = set(f["tok"] for _, k, _, f in events if k == "wait_ret")
+        for tok in waited:
+            if tok not in answered and tok in must and tok not in ix["start"]:
+                out.append(("accepted-task-never-executed", {"tok": tok, "frozen_while_waiting_for_it": True}))
     if drained and not abandoned:
         for tok in must_run_tokens(events):
             if tok not in ix["start"] and tok not in stuck:
